@@ -57,6 +57,8 @@ def gen_program(rng, nvars=None):
         if rng.random() < 0.5 and hv:   # exactly one flag
             cand["observed"] = rng.random() < 0.5
             cand["parameter"] = not cand["observed"]
+        if r < 0.6 and rng.random() < 0.15:
+            cand["moved"] = True
         if _sim_acyclic(plan + [cand]):
             plan.append(cand)
             proxies.append(at)
@@ -120,7 +122,14 @@ class ProgramRun(GraphRun):
                 dist = cls(self._dist(i, p["kind"]), *params, _name=name)
                 if p["has_var"]:
                     src = plan[at - 1]["inp"][0]
-                    if src in pending_val:
+                    if src in pending_val and p.get("moved"):
+                        # the distribution node belonged to another variable first, was released there and is then
+                        # given to this one: it is evaluated at its new owner
+                        tmp = lsl.Var(Term("zz"), dist, name=f"tmp{i}")
+                        tmp.dist_node = None
+                        var = lsl.Var(pending_val.pop(src), name=f"var{src}")
+                        var.dist_node = dist
+                    elif src in pending_val:
                         var = lsl.Var(pending_val.pop(src), dist, name=f"var{src}")
                     else:
                         var = lsl.Var(pending_calc.pop(src), dist, name=f"var{src}")
